@@ -598,6 +598,8 @@ def r3_import_failure_path(ctx):
 # ---------------------------------------------------------------------------
 
 def r4_ancillary_seeding(ctx):
+    from ..symres import Resolver as _Rs2
+    from ..guards import from_early_exit
     fit = ctx.repo.mod("fit")
     fn = fit.func("guess_initial_parameters")
     ctx.analysed(fn)
@@ -656,6 +658,22 @@ def r4_ancillary_seeding(ctx):
                   "not used as initial value when "
                   + " / ".join(repr(a) for a in extra)
                   + " fails (e.g. a value of exactly 0)")
+        # the seeding loop itself runs whenever ancillaries are requested
+        # for a dataset: common ancillaries exist for every model
+        outer = [a for a in conditions_at(loop)
+                 if not from_early_exit(a, loop)]
+        allowed = ("model_ancillaries", "idnt is not None", "idnt",
+                   "have_data")
+        odd = [a for a in outer if not ((a.pol and (
+            a.text in allowed or _Rs2(fn).text(a.node) in allowed))
+            or ((not a.pol) and a.text == "idnt is None"))]
+        ctx.check(not odd, loop, "seeding runs for every model when "
+                  "requested",
+                  "the ancillary seeding of the initial parameters is "
+                  "skipped when " + " / ".join(
+                      ("not " if a.pol else "") + a.text for a in odd)
+                  + ": ancillaries common to all models (e.g. max_indent) "
+                  "no longer seed a fit parameter of the same name")
     # the loop must be reachable with the default arguments: not disabled
     core = ctx.repo.mod("model.core")
     gk = core.methods("NaniteFitModel").get("get_anc_parm_keys")
@@ -872,6 +890,45 @@ def r6_ancillary_keys_agree(ctx):
               "declared parameter_anc_keys")
 
 
+def r7_parameter_precedence(ctx):
+    """A key that names both a fit parameter and an ancillary (the
+    documented seeding idiom) is reported with the fit parameter's name and
+    unit: the parameter tables are consulted first / merged last."""
+    core = ctx.repo.mod("model.core")
+    for meth, table in (("get_parm_name", "parameter_names"),
+                        ("get_parm_unit", "parameter_units")):
+        fn = core.func(f"NaniteFitModel.{meth}")
+        ctx.analysed(fn)
+        body = [s_ for s_ in fn.body if not (isinstance(s_, ast.Expr)
+                                             and isinstance(s_.value,
+                                                            ast.Constant))]
+        first_if = next((s_ for s_ in body if isinstance(s_, ast.If)), None)
+        updates = [c for c in calls_in(fn) if isinstance(
+            c.func, ast.Attribute) and c.func.attr == "update"]
+        merges = [n for n in walk_no_nested(fn, False)
+                  if isinstance(n, ast.Dict) and any(k is None
+                                                     for k in n.keys)]
+        if updates or merges:
+            srcs = [norm(c.args[0]) if c.args else "" for c in updates]
+            last = srcs[-1] if srcs else ""
+            ctx.check("self.parameter_keys" in last and table in last,
+                      updates[-1] if updates else merges[0],
+                      f"{meth}: fit parameters merged last",
+                      f"{meth} merges the lookup tables in an order in which "
+                      f"`{last[:50]}` wins: for a key that is both a fit "
+                      "parameter and an ancillary the ancillary's label is "
+                      "returned instead of the documented parameter "
+                      f"{'name' if 'name' in meth else 'unit'}")
+            continue
+        if first_if is None:
+            raise Undecided(f"{meth}: lookup order not understood")
+        ctx.check("self.parameter_keys" in norm(first_if.test), first_if,
+                  f"{meth}: fit parameters looked up first",
+                  f"{meth} consults `{norm(first_if.test)[:50]}` before the "
+                  "fit parameters: for a key that is both a fit parameter "
+                  "and an ancillary the ancillary's label is returned")
+
+
 RULES = [
     ("C18-R1", "registry written only by register/deregister; stored value "
      "validated; keyed by model_key", r1_registry_writers),
@@ -885,4 +942,6 @@ RULES = [
      "consistency tests", r5_check_raises_model_errors),
     ("C18-R6", "computed ancillaries have exactly the announced keys",
      r6_ancillary_keys_agree),
+    ("C18-R7", "fit parameters take precedence over ancillaries of the "
+     "same key in names and units", r7_parameter_precedence),
 ]
